@@ -9,6 +9,8 @@
 //   b.AddBytes(<param> | <param>.<field> | <that>[:])
 //   b.AddUint8|16|24|32LengthPrefixed(func(b *cryptobyte.Builder) { <statements> })
 //   if [!]<bool param or field> { <statements> } else { <statements> }
+//   b := cryptobyte.NewBuilder(<param>);  if … { … } without else;
+//   for _, f := range <field> { b.AddBytes(f[:]) }
 //   helper(b, ...)   — an opaque builder transformer: becomes a parameter g_<helper> : builder -> builder
 //   return <expr>   — recorded textually (the theorem states which wrapper is expected)
 //
@@ -50,8 +52,8 @@ func (t *tr) binder(n ast.Expr, typ string) string {
 		key = x.Name
 	case *ast.SelectorExpr:
 		id, ok := x.X.(*ast.Ident)
-		if !ok || id.Name != t.recv {
-			fail(t.fset, n, "selector on something that is not the receiver")
+		if !ok || !(id.Name == t.recv || t.params[id.Name] != "") {
+			fail(t.fset, n, "selector on something that is neither the receiver nor a parameter")
 		}
 		key = x.Sel.Name
 	case *ast.SliceExpr:
@@ -89,9 +91,23 @@ func (t *tr) stmts(list []ast.Stmt, cur string) (string, string) {
 		case *ast.AssignStmt:
 			var b bytes.Buffer
 			printer.Fprint(&b, t.fset, x)
-			if b.String() != "b := &cryptobyte.Builder{}" {
-				fail(t.fset, s, "assignment")
+			if b.String() == "b := &cryptobyte.Builder{}" {
+				break
 			}
+			// b := cryptobyte.NewBuilder(x): the builder starts with the bytes of x
+			if len(x.Lhs) == 1 && len(x.Rhs) == 1 && x.Tok == token.DEFINE {
+				if id, ok := x.Lhs[0].(*ast.Ident); ok && id.Name == "b" {
+					if call, ok := x.Rhs[0].(*ast.CallExpr); ok && len(call.Args) == 1 {
+						var f bytes.Buffer
+						printer.Fprint(&f, t.fset, call.Fun)
+						if f.String() == "cryptobyte.NewBuilder" {
+							cur = fmt.Sprintf("(Some %s)", t.binder(call.Args[0], "bytes"))
+							break
+						}
+					}
+				}
+			}
+			fail(t.fset, s, "assignment")
 		case *ast.ExprStmt:
 			call, ok := x.X.(*ast.CallExpr)
 			if !ok {
@@ -145,8 +161,8 @@ func (t *tr) stmts(list []ast.Stmt, cur string) (string, string) {
 				fail(t.fset, s, "builder method "+m)
 			}
 		case *ast.IfStmt:
-			if x.Init != nil || x.Else == nil {
-				fail(t.fset, s, "if without else / with init")
+			if x.Init != nil {
+				fail(t.fset, s, "if with init")
 			}
 			cond := ""
 			switch c := x.Cond.(type) {
@@ -158,16 +174,34 @@ func (t *tr) stmts(list []ast.Stmt, cur string) (string, string) {
 			default:
 				cond = t.binder(x.Cond, "bool")
 			}
-			eb, ok := x.Else.(*ast.BlockStmt)
-			if !ok {
-				fail(t.fset, s, "else if")
-			}
 			a, r1 := t.stmts(x.Body.List, cur)
-			b, r2 := t.stmts(eb.List, cur)
+			b, r2 := cur, ""
+			if x.Else != nil {
+				eb, ok := x.Else.(*ast.BlockStmt)
+				if !ok {
+					fail(t.fset, s, "else if")
+				}
+				b, r2 = t.stmts(eb.List, cur)
+			}
 			if r1 != "" || r2 != "" {
 				fail(t.fset, s, "return inside a branch")
 			}
 			cur = fmt.Sprintf("(if %s then %s else %s)", cond, a, b)
+		case *ast.RangeStmt:
+			// for _, f := range X { b.AddBytes(f[:]) }  ->  fold_left (fun acc f => b_add f acc) X cur
+			v, okv := x.Value.(*ast.Ident)
+			if x.Tok != token.DEFINE || !okv || len(x.Body.List) != 1 {
+				fail(t.fset, s, "range loop")
+			}
+			if k, ok := x.Key.(*ast.Ident); !ok || k.Name != "_" {
+				fail(t.fset, s, "range loop with an index variable")
+			}
+			var body bytes.Buffer
+			printer.Fprint(&body, t.fset, x.Body.List[0])
+			if body.String() != "b.AddBytes("+v.Name+"[:])" && body.String() != "b.AddBytes("+v.Name+")" {
+				fail(t.fset, s, "range loop body")
+			}
+			cur = fmt.Sprintf("(fold_left (fun acc f => b_add f acc) %s %s)", t.binder(x.X, "list bytes"), cur)
 		case *ast.ReturnStmt:
 			var b bytes.Buffer
 			for i, r := range x.Results {
@@ -193,7 +227,7 @@ func main() {
 	out.WriteString("(* GENERATED by /verif/translate from /repo's current source on every check run — do not edit.\n")
 	out.WriteString("   Each definition is the cryptobyte.Builder term the named Go function builds, as a function of\n")
 	out.WriteString("   the values it reads (g_<name>); gen_<f>_returns records the Go return expression. *)\n")
-	out.WriteString("From SL Require Import Base.Bytes Base.Cryptobyte.\nFrom Coq Require Import String.\nOpen Scope N_scope.\n\n")
+	out.WriteString("From SL Require Import Base.Bytes Base.Cryptobyte.\nFrom Coq Require Import String List.\nOpen Scope N_scope.\n\n")
 	for _, spec := range os.Args[2:] {
 		f := strings.Split(spec, ":")
 		if len(f) != 3 {
@@ -219,6 +253,11 @@ func main() {
 		t := &tr{fset: fset, params: map[string]string{}, types: map[string]string{}}
 		if fd.Recv != nil && len(fd.Recv.List) == 1 && len(fd.Recv.List[0].Names) == 1 {
 			t.recv = fd.Recv.List[0].Names[0].Name
+		}
+		for _, fl := range fd.Type.Params.List {
+			for _, nm := range fl.Names {
+				t.params[nm.Name] = "param"
+			}
 		}
 		term, ret := t.stmts(fd.Body.List, "b_empty")
 		fmt.Fprintf(&out, "(* %s: func %s *)\nDefinition %s", f[0][strings.LastIndex(f[0], "/")+1:], f[1], f[2])
